@@ -568,6 +568,48 @@ Proof.
       split; [apply in_map; exact Hr|apply indices_In; exact Hri].
 Qed.
 
+(** Work-queue sites (animation.DecodeFramesParallel: a channel of frame indices
+    drained by min n items workers; each item is taken by exactly one worker, in any
+    order, and its result stored in its own slot): any order of the items gives the
+    serial result. *)
+Theorem queue_site_independent : forall (A : Type) (f : Z -> A) total (init : list A) ops,
+  Permutation ops (zrange total) -> length init = Z.to_nat total ->
+  run_writes f ops init = map f (zrange total).
+Proof.
+  intros A f total init ops Hperm Hlen.
+  assert (Hops : forall i, In i ops <-> 0 <= i < total).
+  { intros i. rewrite <- zrange_In. split; intros H.
+    - eapply Permutation_in; eauto.
+    - eapply Permutation_in; [apply Permutation_sym; eauto|exact H]. }
+  destruct init as [|d0 init'] eqn:Einit.
+  { cbn in Hlen. assert (Hz : Z.to_nat total = 0%nat) by lia.
+    unfold zrange. rewrite Hz. cbn [seq map].
+    assert (Hl : length (run_writes f ops []) = 0%nat) by (rewrite run_writes_length; reflexivity).
+    destruct (run_writes f ops []); [reflexivity|cbn in Hl; lia]. }
+  rewrite <- Einit in *. clear Einit init'.
+  apply nth_ext with (d := d0) (d' := f 0).
+  - rewrite run_writes_length, map_length, zrange_length. exact Hlen.
+  - intros j Hj. rewrite run_writes_length in Hj.
+    rewrite (run_writes_nth f d0 ops init j); [|intros i Hi; apply Hops in Hi; lia|exact Hj].
+    destruct (in_dec Z.eq_dec (Z.of_nat j) ops) as [_|Hn].
+    + rewrite (map_nth f). rewrite zrange_nth by lia. reflexivity.
+    + exfalso. apply Hn. apply Hops. lia.
+Qed.
+
+(** C10's name for the same facts: a fork–join section whose goroutines write
+    disjoint cells and are joined before the result is read is deterministic — its
+    result does not depend on the interleaving, the number of workers or the
+    partition. *)
+Theorem forkjoin_deterministic : forall (A : Type) (f : Z -> A) total (init : list A) rs1 rs2 ops1 ops2,
+  exact_partition rs1 0 total -> exact_partition rs2 0 total -> length init = Z.to_nat total ->
+  Shuffle (map indices rs1) ops1 -> Shuffle (map indices rs2) ops2 ->
+  run_writes f ops1 init = run_writes f ops2 init.
+Proof.
+  intros A f total init rs1 rs2 ops1 ops2 H1 H2 Hl S1 S2.
+  rewrite (map_site_independent A f rs1 total init ops1 H1 Hl S1).
+  rewrite (map_site_independent A f rs2 total init ops2 H2 Hl S2). reflexivity.
+Qed.
+
 (** The hypotheses are satisfiable by non-trivial values: 5 workers over 13 tile
     rows (remainder, one clipped range), writes interleaved in reverse spawn order. *)
 Example ranges_ceil_5_13 : ranges_ceil 5 13 = [(0, 3); (3, 6); (6, 9); (9, 12); (12, 13)].
